@@ -144,11 +144,17 @@ type llQuery struct {
 	done   bool
 }
 
+// llStopBound: "promptly" for LLMNR: nothing in its shutdown path waits on a timer.
+const llStopBound = int64(2e9)
+
+const poisonName = "poison.corp"
+
 type llRawClient struct {
-	idx  int
-	host string
-	qs   []*llQuery
-	got  [][]byte
+	idx    int
+	host   string
+	poison bool // sends the query that makes a handler close the server
+	qs     []*llQuery
+	got    [][]byte
 }
 
 func runLLMNR(w *rt.World, res *hx.Result, realServer, realClient bool) *hx.Violation {
@@ -179,7 +185,7 @@ func runLLMNR(w *rt.World, res *hx.Result, realServer, realClient bool) *hx.Viol
 		clN[c] = 1 + hx.G(maxQ)
 	}
 	nClients := 1 + hx.G(maxClients)
-	chain := hx.G(3)
+	chain := hx.G(4) // 3: the first handler closes the server from inside the handler goroutine when it sees the poison name
 	stopMode := hx.F(8)
 	stopAt := [...]int64{0, 0, 0, 0, 1e6, 50e6, 1e9, 2500e6}[stopMode]
 	stopTwice := hx.F(3) == 0
@@ -215,8 +221,16 @@ func runLLMNR(w *rt.World, res *hx.Result, realServer, realClient bool) *hx.Viol
 			canaryRan = true
 			return false
 		})
+		closerH := llmnr.HandlerFunc(func(s *llmnr.Server, _ net.Addr, _ llmnr.ResponseWriter, msg *llmnr.Message) bool {
+			if len(msg.Questions) > 0 && msg.Questions[0].Name == poisonName {
+				s.Close() // "stopping a server at any moment" includes from one of its own handler goroutines
+			}
+			return true
+		})
 		var handlers []llmnr.Handler
 		switch chain {
+		case 3:
+			handlers = []llmnr.Handler{closerH, respond, canary}
 		case 0:
 			handlers = []llmnr.Handler{locker, respond, canary}
 		case 1:
@@ -358,6 +372,7 @@ func runLLMNR(w *rt.World, res *hx.Result, realServer, realClient bool) *hx.Viol
 				idc += 1 + uint16(pool[c][q][1])
 				rc.qs = append(rc.qs, &llQuery{name: pool[c][q][0] % nNames, id: idc})
 			}
+			rc.poison = realServer && chain == 3 && c == 0
 			raws = append(raws, rc)
 			tasks = append(tasks, rt.GoHarness(fmt.Sprintf("raw-client%d", c), rc.host, func() { llRaw(rc) }))
 		}
@@ -365,8 +380,16 @@ func runLLMNR(w *rt.World, res *hx.Result, realServer, realClient bool) *hx.Viol
 
 	// ---- stop / close at a chosen time
 	var stopper, closer *rt.Task
-	stoppedEarly := false
+	stoppedEarly := realServer && chain == 3 && !realClient
+	var stopper2 *rt.Task
 	if realServer && stopMode >= 3 {
+		if stopTwice {
+			// a second caller closes at the same moment from another task
+			stopper2 = rt.GoHarness("stopper2", serverHost, func() {
+				rt.SleepUntil(startT + stopAt)
+				srv.Close()
+			})
+		}
 		stoppedEarly = true
 		stopper = rt.GoHarness("stopper", serverHost, func() {
 			rt.SleepUntil(startT + stopAt)
@@ -406,12 +429,15 @@ func runLLMNR(w *rt.World, res *hx.Result, realServer, realClient bool) *hx.Viol
 				srv.Close()
 			})
 		}
-		if !joinWithin(stopper, 6e9) {
+		if !joinWithin(stopper, llStopBound) {
 			return &hx.Violation{Class: "stop_blocked", Key: sysName, Msg: "Close() did not return; the calling task is " + stopper.StateString()}
 		}
-		if !joinWithin(lsTask, 6e9) {
+		if stopper2 != nil && !joinWithin(stopper2, llStopBound) {
+			return &hx.Violation{Class: "stop_blocked", Key: sysName, Msg: "a second, concurrent Close() did not return; the calling task is " + stopper2.StateString()}
+		}
+		if !joinWithin(lsTask, llStopBound) {
 			return &hx.Violation{Class: "serve_not_returned", Key: sysName,
-				Msg: "ListenAndServe had not returned 6 simulated seconds after Close(); its task is " + lsTask.StateString()}
+				Msg: "ListenAndServe had not returned 2 simulated seconds after Close(); its task is " + lsTask.StateString()}
 		}
 		if lsErr != nil {
 			return &hx.Violation{Class: "serve_error", Key: sysName, Msg: "ListenAndServe returned an error after Close(): " + lsErr.Error()}
@@ -421,14 +447,14 @@ func runLLMNR(w *rt.World, res *hx.Result, realServer, realClient bool) *hx.Viol
 		if closer == nil {
 			closer = rt.GoHarness("client-closer", "10.0.1.1", func() { cl.Close() })
 		}
-		if !joinWithin(closer, 6e9) {
+		if !joinWithin(closer, llStopBound) {
 			return &hx.Violation{Class: "stop_blocked", Key: "llmnr.Client", Msg: "Client.Close() did not return; the calling task is " + closer.StateString()}
 		}
 	}
 	for _, t := range respTasks {
 		rt.Join(t, -1)
 	}
-	if v := shutdownCheck(sysName, 6e9); v != nil {
+	if v := shutdownCheck(sysName, llStopBound); v != nil {
 		return v
 	}
 	noteSockets()
@@ -572,6 +598,9 @@ func llRaw(rc *llRawClient) {
 			rt.SleepUntil(rt.Now() + 2e6)
 		}
 		c.WriteToUDP(dnsQuery(q.id, llName(q.name)), groupAddr)
+	}
+	if rc.poison {
+		c.WriteToUDP(dnsQuery(0x0666, poisonName), groupAddr)
 	}
 	deadline := rt.Now() + 4e9
 	buf := make([]byte, 2048)
